@@ -218,9 +218,9 @@ func (s String) Without(value Value) Set {
 		i := s.index(t.at)
 		switch {
 		case i == 0 && t.char == s.s[0]:
-			s = String{s: s.s[1:], offset: s.offset + 1, holes: s.holes}
+			s = String{s: s.s[1:], offset: s.offset + 1, holes: s.holes}.trimmed()
 		case i == len(s.s)-1 && t.char == s.s[len(s.s)-1]:
-			s = String{s: s.s[:len(s.s)-1], offset: s.offset, holes: s.holes}
+			s = String{s: s.s[:len(s.s)-1], offset: s.offset, holes: s.holes}.trimmed()
 		case 0 < i && i < len(s.s)-1 && t.char == s.s[i]:
 			newS := make([]rune, len(s.s))
 			copy(newS, s.s)
@@ -230,6 +230,17 @@ func (s String) Without(value Value) Set {
 	}
 	if s.Count() == 0 {
 		return None
+	}
+	return s
+}
+
+// trimmed returns s without leading and trailing holes.
+func (s String) trimmed() String {
+	for len(s.s) > 0 && s.s[0] < 0 {
+		s = String{s: s.s[1:], offset: s.offset + 1, holes: s.holes - 1}
+	}
+	for len(s.s) > 0 && s.s[len(s.s)-1] < 0 {
+		s = String{s: s.s[:len(s.s)-1], offset: s.offset, holes: s.holes - 1}
 	}
 	return s
 }
